@@ -245,6 +245,7 @@ async fn create_local(dir: &FsPath, cfg: &TableCfg, initial: &[RowSeed], max_row
         dropped_names: vec![],
         stale_indexed_cols: BTreeSet::new(),
         deferred_remap_pending: false,
+        last_cast: BTreeMap::new(),
     };
     w.versions.insert(v, VersionState { schema, rows, ordered: true, config: BTreeMap::new(), indices: BTreeMap::new() });
     Ok(w)
